@@ -429,10 +429,10 @@ Lemma list_eqbN_refl l : list_eqbN l l = true.
 Proof. induction l as [|x l IH]; [reflexivity|]. cbn [list_eqbN]. rewrite N.eqb_refl, IH. reflexivity. Qed.
 
 Lemma rd_program_parses dbg f :
-  in_types f -> wf_sizes f -> parses (rd_program dbg) (write f) (normalize f).
+  in_types f -> wf_sizes f -> parses (rd_program dbg) (write_bytes f) (normalize f).
 Proof.
   intros T S. destruct layout_facts as (_ & _ & _ & _ & _ & _ & _ & _ & HM & HV & _).
-  unfold rd_program, write.
+  unfold rd_program, write_bytes.
   eapply parses_bind; [rewrite <- HM; apply parses_exact|].
   rewrite list_eqbN_refl.
   eapply parses_bind; [apply parses_le; exact HV|].
@@ -444,10 +444,97 @@ Proof.
   pose proof (wf_height 0 f S). unfold read_fuel. rewrite N2Nat.id. lia.
 Qed.
 
-Lemma read_write_lemma dbg f : in_types f -> wf_sizes f -> read dbg (write f) = ROk (normalize f).
+Lemma read_write_lemma dbg f : in_types f -> wf_sizes f -> read dbg (write_bytes f) = ROk (normalize f).
 Proof.
   intros T S. destruct (rd_program_parses dbg f T S [] 0 0) as (a' & m' & E).
   unfold read. rewrite app_nil_r in E. rewrite E. reflexivity.
+Qed.
+
+(* ------------------------------------------------------------------ the validating writer *)
+Lemma wlim_facts :
+  WLIM_DEPTH = LIM_DEPTH
+  /\ WLIM_NAME_LEN = N.min (W16 - 1) LIM_NAME_LEN /\ WLIM_CONSTS = N.min (W16 - 1) LIM_CONSTS
+  /\ WLIM_CODE = N.min (W32 - 1) LIM_CODE /\ WLIM_NESTED = N.min (W16 - 1) LIM_NESTED
+  /\ WLIM_UPVALS = N.min (W16 - 1) LIM_UPVALS /\ WLIM_LINES = N.min (W16 - 1) LIM_LINES
+  /\ WLIM_GLOBALS = N.min (W16 - 1) LIM_GLOBALS
+  /\ WLIM_GLOBAL_NAME_LEN = N.min (W16 - 1) LIM_GLOBAL_NAME_LEN
+  /\ WLIM_STRING_LEN = N.min (W32 - 1) LIM_STRING_LEN.
+Proof. repeat split; reflexivity. Qed.
+
+Lemma first_err_none l : first_err l = None <-> Forall (fun x => x = None) l.
+Proof.
+  induction l as [|x l IH]; cbn [first_err].
+  - split; [constructor | reflexivity].
+  - destruct x as [e|].
+    + split; [discriminate | intro H; inversion H; discriminate].
+    + rewrite IH. split; [intro H; constructor; [reflexivity | exact H] | intro H; inversion H; assumption].
+Qed.
+
+Lemma lim_err_none n lim w : lim_err n lim w = None <-> n <= lim.
+Proof. unfold lim_err. destruct (N.ltb_spec lim n); split; intro; try lia; try discriminate; reflexivity. Qed.
+
+Lemma first_err_map_none {A} (g : A -> option err_w) l :
+  first_err (map g l) = None <-> Forall (fun x => g x = None) l.
+Proof. rewrite first_err_none, Forall_map. reflexivity. Qed.
+
+Lemma wcheck_wf : forall f d, wcheck d f = None -> wf_sizes_at d f.
+Proof.
+  destruct wlim_facts as (Fd & Fn & Fc & Fw & Fne & Fu & Fl & Fg & Fgn & Fs).
+  induction f as [name ar nr cs consts code nested upv lines globals IH] using func_ind'.
+  intros d H. cbn [wcheck] in H. apply first_err_none in H.
+  repeat (apply Forall_cons_iff in H; destruct H as [?H H]).
+  repeat match goal with X : lim_err _ _ _ = None |- _ => apply lim_err_none in X end.
+  repeat match goal with X : first_err (map _ _) = None |- _ => apply first_err_map_none in X end.
+  rewrite Fd in *. rewrite Fn in *. rewrite Fc in *. rewrite Fw in *. rewrite Fne in *.
+  rewrite Fu in *. rewrite Fl in *. rewrite Fg in *.
+  cbn [wf_sizes_at]. unfold W16, W32 in *.
+  repeat split; try lia.
+  - destruct name as [s|]; cbn [name_sized name_len] in *; [unfold W16; lia | exact I].
+  - rewrite Forall_forall in *. intros c Hc.
+    match goal with X : forall x, In x consts -> wcheck_const _ x = None |- _ => specialize (X c Hc); rename X into Hw end.
+    destruct c; cbn [wcheck_const const_sized] in *; try exact I.
+    + rewrite Fs in Hw. apply lim_err_none in Hw. unfold W32 in *. lia.
+    + destruct (N.leb_spec (lenN nested) i); [discriminate|]. unfold W32. lia.
+  - apply fold_conj_Forall. rewrite Forall_forall in *. intros g Hg. apply (IH g Hg). auto.
+  - rewrite Forall_forall in *. intros g Hg.
+    match goal with X : forall x, In x globals -> lim_err _ _ _ = None |- _ => specialize (X g Hg); rename X into Hw end.
+    rewrite Fgn in Hw. apply lim_err_none in Hw. unfold W16 in *. lia.
+Qed.
+
+Lemma wf_wcheck : forall f d, wf_sizes_at d f -> wcheck d f = None.
+Proof.
+  destruct wlim_facts as (Fd & Fn & Fc & Fw & Fne & Fu & Fl & Fg & Fgn & Fs).
+  induction f as [name ar nr cs consts code nested upv lines globals IH] using func_ind'.
+  intros d S. cbn [wf_sizes_at] in S.
+  destruct S as (Sd & Sn & Sc1 & Sc2 & Sc & Sw1 & Sw2 & Sn1 & Sn2 & Snest & Su1 & Su2 & Sl1 & Sl2 & Sg1 & Sg2 & Sg).
+  apply fold_conj_Forall in Snest.
+  cbn [wcheck]. apply first_err_none.
+  rewrite Fd, Fn, Fc, Fw, Fne, Fu, Fl, Fg. unfold W16, W32 in *.
+  repeat (apply Forall_cons); try (apply lim_err_none; lia); try constructor.
+  - apply lim_err_none. destruct name as [s|]; cbn [name_sized name_len] in *; unfold W16 in *; lia.
+  - apply first_err_map_none. rewrite Forall_forall in *. intros g Hg. destruct (Sg g Hg).
+    rewrite Fgn. apply lim_err_none. unfold W16 in *. lia.
+  - apply first_err_map_none. rewrite Forall_forall in *. intros c Hc. specialize (Sc c Hc).
+    destruct c; cbn [wcheck_const const_sized] in *; try reflexivity.
+    + rewrite Fs. apply lim_err_none. unfold W32 in *. lia.
+    + destruct (N.leb_spec (lenN nested) i); [lia | reflexivity].
+  - apply first_err_map_none. rewrite Forall_forall in *. intros g Hg. apply (IH g Hg). auto.
+Qed.
+
+Lemma read_write_full dbg f bs :
+  in_types f -> write f = WOk bs -> read dbg bs = ROk (normalize f).
+Proof.
+  intros T W. unfold write in W. destruct (wcheck 0 f) as [e|] eqn:C; [discriminate|].
+  inversion W; subst. apply read_write_lemma; [exact T | apply wcheck_wf; exact C].
+Qed.
+
+Lemma write_accepts_wf f : wf_sizes f -> write f = WOk (write_bytes f).
+Proof. intro S. unfold write. rewrite (wf_wcheck f 0 S). reflexivity. Qed.
+
+Lemma write_rejects f : ~ wf_sizes f -> exists e, write f = WErr e.
+Proof.
+  intro N. unfold write. destruct (wcheck 0 f) as [e|] eqn:C; [exists e; reflexivity|].
+  exfalso. apply N. apply wcheck_wf. exact C.
 Qed.
 
 (* the reader never runs out of fuel: the depth guard fires first *)
@@ -480,7 +567,7 @@ Proof.
 Qed.
 
 Lemma write_truncates_lemma :
-  exists f, in_types f /\ exists g, read true (write f) = ROk g /\ read false (write f) = ROk g
+  exists f, in_types f /\ exists g, read true (write_bytes f) = ROk g /\ read false (write_bytes f) = ROk g
                                      /\ g <> normalize f.
 Proof.
   exists trunc_witness. split; [exact trunc_in_types|]. exists trunc_result.
@@ -488,7 +575,10 @@ Proof.
   intro E. apply (f_equal (fun f => lenN (f_lines f))) in E. vm_compute in E. discriminate.
 Qed.
 
-(* 4 097 nested functions: written without complaint, rejected by the reader's limit *)
+Lemma writer_rejects_truncation : write trunc_witness = WErr (WLimit 6).
+Proof. vm_compute. reflexivity. Qed.
+
+(* 4 097 nested functions: the unchecked writer wrote them, the reader's limit rejects them *)
 Definition toomany_witness : func := Func None 0 0 0 [] [] (repN leaf0 4097) [] [] [].
 
 Lemma leaf0_in_types : in_types leaf0.
@@ -505,10 +595,13 @@ Proof.
 Qed.
 
 Lemma read_back_fails_lemma :
-  exists f, in_types f /\ read true (write f) = RErr (ELimit 4) /\ read false (write f) = RErr (ELimit 4).
+  exists f, in_types f /\ read true (write_bytes f) = RErr (ELimit 4) /\ read false (write_bytes f) = RErr (ELimit 4).
 Proof.
   exists toomany_witness. split; [exact toomany_in_types|]. split; vm_compute; reflexivity.
 Qed.
+
+Lemma writer_rejects_toomany : write toomany_witness = WErr (WLimit 4).
+Proof. vm_compute. reflexivity. Qed.
 
 (* non-vacuity: a function with two levels of nesting and every constant kind *)
 Definition ex_leaf : func :=
@@ -523,13 +616,13 @@ Definition ex_top : func :=
 
 Lemma ex_top_ok :
   in_types ex_top /\ wf_sizes ex_top
-  /\ read true (write ex_top) = ROk (normalize ex_top)
+  /\ (exists bs, write ex_top = WOk bs /\ read true bs = ROk (normalize ex_top))
   /\ normalize ex_top <> ex_top /\ height ex_top = 2.
 Proof.
   split; [|split; [|split; [|split]]].
   - cbn. unfold W8, W16, W32, W48, W64, int48. repeat split; try lia; repeat constructor; try reflexivity; cbn; try lia.
   - cbn. unfold W16, W32. repeat split; try lia; repeat constructor; cbn; try lia; vm_compute; intro; discriminate.
-  - vm_compute. reflexivity.
+  - eexists. split; vm_compute; reflexivity.
   - intro E. apply (f_equal f_code) in E. vm_compute in E. discriminate.
   - vm_compute. reflexivity.
 Qed.
